@@ -13,6 +13,23 @@ def gen_case(rng, cid, mode):
     for _ in range(3):
         s = S.gen_sel(rng, fns=fns, names=("a", "b", "p", "i"), maxdepth=rng.choice([1, 2, 3]), conds=True)
         hs.append(W.norm_handler({"kind": "imm", "sel": s}))
+    # a sibling of the first selector: the same text with one of its later conditions dropped or changed - compiled
+    # selectors are interned, so the two share every element they have in common
+    import copy
+    conds = []
+
+    def walk(n):
+        for c in n["caps"]:
+            if c["cond"]["k"] != "none":
+                conds.append(c)
+        for k in n["kids"]:
+            walk(k)
+    sib = copy.deepcopy(hs[0]["sel"])
+    walk(sib)
+    if len(conds) >= 2:
+        victim = rng.choice(conds[1:])
+        victim["cond"] = dict(S.NOCOND) if rng.random() < 0.6 else dict(victim["cond"], n=victim["cond"]["n"] + 1)
+        hs[rng.choice([1, 2])] = W.norm_handler({"kind": "imm", "sel": sib})
     s = c04.focused_on(rng, fns, rng.choice(["a", "b", "i", "p"]), conds=True)
     hs.insert(rng.randint(0, 3), W.norm_handler({"kind": "imm", "sel": s, "ovr": {"k": "const", "c": rng.randint(500, 999)}}))
     return {"id": cid, "script": sc, "arg": rng.randint(0, 40), "handlers": hs}
